@@ -1155,15 +1155,26 @@ def emit_fn(em, info, unit, cur_source, blk, typemap):
                     sec[cur].append(line)
             sec = {k: "\n".join(v).strip() for k, v in sec.items()}
             loops = find_loops(ft)
-            want = [t[0] for t in tokenize(sec.get("match", ""))]
+            want = [t[0] for t in tokenize(sec.get("match", ""), allow_meta=True)]
             def hdr_toks(L):
                 return [t[0] for t in tokenize(ft.text[L[1]:L[2]])]
-            if nth > len(loops) or loops[nth - 1][0] != "for" or hdr_toks(loops[nth - 1]) != want:
+            def hdr_match(L):
+                # whole-header match; $x / $_x in %match bind sub-expressions of the header (substituted into %pre/%loop/%open/%close)
+                ht = tokenize(ft.text[L[1]:L[2]])
+                for (i, j, b) in find_tokseq(ht, want):
+                    if i == 0 and j == len(ht):
+                        return {k: " ".join(v) for k, v in b.items()}
+                    break
+                return None
+            if nth > len(loops) or loops[nth - 1][0] != "for" or hdr_match(loops[nth - 1]) is None:
                 # ordinal drifted (a loop was added or removed before it): locate the loop by its header
-                cands = [k for k, L in enumerate(loops, 1) if L[0] == "for" and hdr_toks(L) == want]
+                cands = [k for k, L in enumerate(loops, 1) if L[0] == "for" and hdr_match(L) is not None]
                 if len(cands) != 1:
                     raise VxError(f"lost anchor: {fnpath}: no unique `for` loop with header `{sec.get('match')}`")
                 nth = cands[0]
+            hb = hdr_match(loops[nth - 1])
+            if hb:
+                sec = {k: subst(v, hb, lambda m_: hb.get(m_, m_)) for k, v in sec.items()}
             kw, a0, bo, bc = loops[nth - 1]
             hdr = ft.text[a0:bo]
             new_head = sec.get("pre", "") + "\n        loop /*L:%d:%s*/\n" % (s.lineno, lab or "") + indent(sec.get("loop", ""), 12) + "\n        {\n" + indent(sec.get("open", ""), 12) + "\n"
